@@ -1,7 +1,7 @@
 SPECIFICATION Spec
 CONSTANTS L = 5
- CLASSES = {"val", "sopen", "sclose", "term"}
+ CLASSES = {"val", "pre", "open", "close", "suf"}
  SEPS = {"blank", "none"}
- BALANCED = FALSE
+ BALANCED = TRUE
 INVARIANT Emit
 CHECK_DEADLOCK FALSE
